@@ -824,6 +824,30 @@ Fixpoint walk_dd (dd : ddocs) (prev : snapshot) (steps : list (sctx * sop)) (obs
 
 Definition chk_C12_kv (t : scase * list ostep) : bool := walk_dd [] (snap0 (fst t)) (sc_steps (fst t)) (snd t).
 
+(* C11, design documents: GetDDocs on a collection lists the design documents put into THAT collection (and not
+   deleted since), with their views - whatever other collections hold *)
+Definition dd_lines (c : string) (dd : ddocs) : list string :=
+  str_sort (flat_map (fun e : (string * string) * list (string * N) =>
+                        if String.eqb (fst (fst e)) c
+                        then snd (fst e) :: map (fun nv : string * N => (snd (fst e) ++ "/" ++ fst nv ++ "=" ++ N_to_dec (snd nv))%string) (snd e)
+                        else []) dd).
+
+Definition chk_step_ddl (dd : ddocs) (o : sop) (ob : ostep) : bool :=
+  match o, os_resp ob with
+  | SGetDDocs c, RRows rows => strs_eqb' rows (dd_lines c dd)
+  | SGetDDocs c, _ => false
+  | _, _ => true
+  end.
+
+Fixpoint walk_ddl (dd : ddocs) (steps : list (sctx * sop)) (obs : list ostep) : bool :=
+  match steps, obs with
+  | [], [] => true
+  | (x, o) :: ss, ob :: os => chk_step_ddl dd o ob && walk_ddl (ddocs_after dd o (os_resp ob)) ss os
+  | _, _ => false
+  end.
+
+Definition chk_C11_ddocs (t : scase * list ostep) : bool := walk_ddl [] (sc_steps (fst t)) (snd t).
+
 (* ------------------------------------------------------------------------------------------ *)
 (* C10: what a bucket shows when it is reopened after the process was killed                     *)
 
